@@ -11,24 +11,24 @@ Import ListNotations.
    schedule - any reload sequence, any callback results delivered at any time, Stop/cancel at any point,
    foreign binders included - if the oracle accepts the initial route list and every route list the
    callback delivers, the process never crashes. *)
-Theorem C19_http : forall validated mux_ok c0 ls s,
+Theorem C19_http : forall sl validated mux_ok c0 ls s,
   mux_ok (map rpath (routes c0)) = true ->
   Forall (delivers_ok mux_ok) ls ->
-  run (step validated mux_ok) (init c0) ls = Some s ->
+  run (step sl validated mux_ok) (init c0) ls = Some s ->
   crashed s = false.
-Proof. intros v m c0 ls s H0 Hd Hr. exact (proj1 (crash_free v m c0 ls s H0 Hd Hr)). Qed.
+Proof. intros sl v m c0 ls s H0 Hd Hr. exact (proj1 (crash_free sl v m c0 ls s H0 Hd Hr)). Qed.
 
 (* The hypothesis cannot be dropped for the code as it is: EVERY configuration NewConfig accepts
    (non-empty route list) whose patterns the mux rejects crashes Run() - duplicate paths, conflicting
    wildcards, malformed patterns.  Replayed against the implementation on every run of the check. *)
-Theorem C19_http_refuted : forall mux_ok c0,
+Theorem C19_http_refuted : forall sl mux_ok c0,
   routes c0 <> [] -> new_config_ok false mux_ok (routes c0) = true /\
   (mux_ok (map rpath (routes c0)) = false ->
-   exists s, run (step false mux_ok) (init c0) [LRunCall; LRunStart; LRunLock; LBootCrash] = Some s /\
+   exists s, run (step sl false mux_ok) (init c0) [LRunCall; LRunStart; LRunLock; LBootCrash] = Some s /\
              crashed s = true).
 Proof.
-  intros m c0 Hne. split; [destruct (routes c0); [contradiction|reflexivity]|].
-  intros Hm. exact (crash_witness m c0 Hne Hm).
+  intros sl m c0 Hne. split; [destruct (routes c0); [contradiction|reflexivity]|].
+  intros Hm. exact (crash_witness sl m c0 Hne Hm).
 Qed.
 
 (* ... and the same at reload time, on the reloading goroutine (concrete witness: a second route with the
@@ -46,15 +46,15 @@ Definition c19_reload_sched : list label :=
    LReloadCall 0; LReloadBegin 0; LFetch (CbCfg c19_dup); LStopCallS 0; LShutdownRet 0 SOk; LBootCrash].
 Theorem C19_http_refuted_at_reload :
   new_config_ok false dup_oracle (routes c19_dup) = true /\
-  exists s, run (step false dup_oracle) (init c19_good) c19_reload_sched = Some s /\ crashed s = true.
+  exists s, run (step true false dup_oracle) (init c19_good) c19_reload_sched = Some s /\ crashed s = true.
 Proof. split; [reflexivity|]. eexists. split; [vm_compute; reflexivity|reflexivity]. Qed.
 
 (* With the candidate repair (NewConfig registers the patterns on a scratch mux under recover and returns an
    error) the full statement holds with NO hypothesis on what is delivered: a bad configuration at
    construction or at reload time ends in a returned error / the Error state (C13_visible), never a crash.
    Switching the model is one definition: HttpServer.validated_now. *)
-Theorem C19_http_repaired : forall mux_ok c0 ls s,
-  run (step true mux_ok) (init c0) ls = Some s -> crashed s = false.
+Theorem C19_http_repaired : forall sl mux_ok c0 ls s,
+  run (step sl true mux_ok) (init c0) ls = Some s -> crashed s = false.
 Proof. exact crash_free_validated. Qed.
 
 (* the switch is consistent with the theorems: the model the check runs is one of the two variants *)
